@@ -709,7 +709,7 @@ impl Ty {
         if self.needs_map() {
             s.push_str("let { Map } = import! std.map\n");
         }
-        s.push_str("let array_prim = import! std.array.prim\n");
+        s.push_str("let array_prim = import! std.array.prim\nlet mk_some y = Some y\n");
         for d in &decls {
             s.push_str(&d.1);
             s.push('\n');
